@@ -137,7 +137,7 @@ func c01DiagImpliesError(c *Ctx, entry *ssa.Function, ro *ParserRoles) {
 	// worker: the diagnostics list is copied into the source on every path after the last parse call
 	var exprCall ssa.Instruction
 	instrs(ro.Worker, func(b *ssa.BasicBlock, i int, in ssa.Instruction) {
-		if call, isC := in.(*ssa.Call); isC && calleeOf(call) == ro.Expr {
+		if call, isC := in.(*ssa.Call); isC && calleeOf(call) != nil && c.canon(calleeOf(call)) == ro.Expr {
 			exprCall = in
 		}
 	})
@@ -225,7 +225,7 @@ func c01DiagImpliesError(c *Ctx, entry *ssa.Function, ro *ParserRoles) {
 func c01EOF(c *Ctx, ro *ParserRoles, rule string) string {
 	var exprCall ssa.Instruction
 	instrs(ro.Worker, func(b *ssa.BasicBlock, i int, in ssa.Instruction) {
-		if call, isC := in.(*ssa.Call); isC && calleeOf(call) == ro.Expr {
+		if call, isC := in.(*ssa.Call); isC && calleeOf(call) != nil && c.canon(calleeOf(call)) == ro.Expr {
 			exprCall = in
 		}
 	})
